@@ -51,10 +51,10 @@ class Authority:
             cert = ca.issue_cert(*sans, common_name=common_name)
             ctx = ssl.SSLContext(ssl.PROTOCOL_TLS_SERVER)
             cert.configure_cert(ctx)
-            holder = {"cur": None}
+            holder = {}      # id(SSLObject) -> per-connection record (parties of one leaf may overlap)
 
             def on_sni(sslobj, name, _ctx, holder=holder):
-                cur = holder["cur"]
+                cur = holder.get(id(sslobj))
                 if cur is not None:
                     cur["sni"] = name if name is not None else "<none>"
                     cur["sni_seen"] = True
@@ -165,12 +165,12 @@ class TLSNet:
         MemoryBIO so the raw fd stays ours and the client's close remains observable afterwards."""
         ctx, _der, holder = leaf
         cur = {"sni": "<none>", "sni_seen": False}
-        holder["cur"] = cur
+        layer = _BIOLayer(stream, ctx)
+        holder[id(layer.obj)] = cur
         try:
-            layer = _BIOLayer(stream, ctx)
             layer.do_handshake()
         finally:
-            holder["cur"] = None
+            holder.pop(id(layer.obj), None)
             rec[prefix + "sni"] = cur["sni"]
             if prefix == "":
                 rec["sni_seen"] = cur["sni_seen"]
